@@ -16,6 +16,7 @@ def targets_of_database(path):
     ps = db.page_size
     n = int(db.database_size_in_pages)
     out = []
+    combos = []
 
     def add(off, width, kind, page=None, parent=None):
         out.append({"off": off, "width": width, "kind": kind, "page": page, "parent": parent})
@@ -77,12 +78,26 @@ def targets_of_database(path):
                     add(p.offset + int(c.overflow_page_number_offset), 4, "cell.overflow_ptr", p.number)
                     # the payload size varint of an overflowing cell: make it huge
                     add(co + (4 if hasattr(c, "left_child_pointer") else 0), 9, "cell.payload_varint_huge", p.number)
+                    chain = []
+                    op = c.overflow_pages[c.overflow_page_number]
+                    chain.append(op)
+                    while op.next_overflow_page_number:
+                        op = c.overflow_pages[op.next_overflow_page_number]
+                        chain.append(op)
+                    combos.append({"kind": "overflow-cycle+huge-size", "cell_kind": type(c).__name__, "page": p.number,
+                                   "size_off": co + (4 if hasattr(c, "left_child_pointer") else 0),
+                                   "size_len": int(c.payload_byte_size_varint_length), "payload": int(c.payload_byte_size),
+                                   "table_leaf": hasattr(c, "row_id"), "usable": ps - int(db.database_header.reserved_bytes_per_page),
+                                   "links": [(o.offset, o.number) for o in chain]})
                 if getattr(c, "payload", None) is not None:
                     add(p.offset + int(c.payload_offset), 1, "record.header_size", p.number)
             for f in p.freeblocks[:4]:
                 add(p.offset + f.start_offset, 2, "freeblock.next", p.number)
                 add(p.offset + f.start_offset + 2, 2, "freeblock.size", p.number)
-    return out, ps, n
+            if len(p.freeblocks) >= 2:
+                combos.append({"kind": "freeblock-cycle", "page": p.number,
+                               "blocks": [(p.offset + f.start_offset, f.start_offset) for f in p.freeblocks]})
+    return out, ps, n, combos
 
 
 def values_for(t, ps, n, r):
@@ -105,6 +120,36 @@ def values_for(t, ps, n, r):
     return sorted(v for v in vals if v is not None and 0 <= v <= mx) + ([None] if None in vals else [])
 
 
+def varint9(v):
+    out = bytearray(9)
+    out[8] = v & 0xFF
+    v >>= 8
+    for i in range(7, -1, -1):
+        out[i] = (v & 0x7F) | 0x80
+        v >>= 7
+    return bytes(out)
+
+
+def consistent_huge_size(cb):
+    """A 9-byte payload-size varint (~2**61) for an overflowing cell, chosen so that the number of local payload bytes
+    shrinks by exactly the bytes the longer varint takes: the cell keeps its length and its first-overflow-page
+    pointer stays where it is (so the damaged size and a damaged chain cooperate).  Falls back to a plain huge value
+    where no such size exists."""
+    u = cb["usable"]
+    x = u - 35 if cb["table_leaf"] else ((u - 12) * 64 // 255) - 23
+    m = ((u - 12) * 32 // 255) - 23
+    p = cb["payload"]
+    k = m + (p - m) % (u - 4)
+    local = k if k <= x else m
+    target = local - (9 - cb["size_len"])
+    if not (m <= target <= x):
+        return b"\xbf\xff\xff\xff\xff\xff\xff\xff\x7f"
+    base = 1 << 61
+    v = base + ((target - m) - (base - m)) % (u - 4)
+    assert m + (v - m) % (u - 4) == target
+    return varint9(v)
+
+
 def apply(data: bytearray, off, width, value):
     if isinstance(value, (bytes, bytearray)):
         data[off:off + len(value)] = value
@@ -115,7 +160,7 @@ def apply(data: bytearray, off, width, value):
 def corruptions(path, r, limit):
     """yield (description, bytes) of corrupted copies of the database at path"""
     clean = open(path, "rb").read()
-    targets, ps, n = targets_of_database(path)
+    targets, ps, n, combos = targets_of_database(path)
     cases = []
     for t in targets:
         for v in values_for(t, ps, n, r):
@@ -136,6 +181,32 @@ def corruptions(path, r, limit):
                 progressed = True
         if not progressed:
             break
+    # targeted cycles: every freeblock after the first looping to itself / back to an earlier one; every overflow
+    # chain looping back, alone and together with an astronomically large payload size
+    seen_kinds = {}
+    for cb in combos:
+        key = (cb["kind"], cb.get("cell_kind"))
+        seen_kinds[key] = seen_kinds.get(key, 0) + 1
+        if seen_kinds[key] > 3:
+            continue
+        if cb["kind"] == "freeblock-cycle":
+            blocks = cb["blocks"]
+            variants = [(1, 1), (len(blocks) - 1, 1), (len(blocks) - 1, len(blocks) - 1), (1, 0)]
+            for (src, dst) in variants:
+                if src < len(blocks) and dst < len(blocks):
+                    d = bytearray(clean)
+                    apply(d, blocks[src][0], 2, blocks[dst][1])
+                    yield {"kind": "freeblock-cycle", "page": cb["page"], "from": src, "to": dst}, bytes(d)
+        else:
+            links = cb["links"]
+            for huge in (False, True):
+                for (src, dst) in ((len(links) - 1, 0), (0, 0), (len(links) - 1, len(links) - 1)):
+                    d = bytearray(clean)
+                    apply(d, links[src][0], 4, links[dst][1])
+                    if huge:
+                        apply(d, cb["size_off"], 9, consistent_huge_size(cb))
+                    yield {"kind": cb["kind"] if huge else "overflow-cycle", "cell": cb["cell_kind"], "page": cb["page"],
+                           "from": src, "to": dst}, bytes(d)
     for t, v in ordered[:limit]:
         d = bytearray(clean)
         apply(d, t["off"], t["width"], v)
